@@ -543,6 +543,9 @@ func registerCore(e *Engine) {
 		return nil
 	}
 	get64 := func(p *Path, a []Value) Value {
+		if bl, isBlob := a[len(a)-1].(VBlob); isBlob {
+			panic(codecConfusion{Site: p.where(), Msg: fmt.Sprintf("value stored with codec.Marshal(%v) decoded as a raw big-endian uint64", bl.Ty)})
+		}
 		src := a[len(a)-1].(VSlice)
 		if src.Len < 8 {
 			p.goPanicf("index out of range [7] with length %d", src.Len)
